@@ -211,6 +211,9 @@ def main():
     if any(f.startswith('../') for f in scen['tree']):
         obs_outside = {f: sha(f) for f in scen['tree'] if f.startswith('../')}
     obs = {'outcome': 'ok', 'error_text': None, 'error_str_ok': True, 'commits': []}
+    os.environ['STANDIN_PIDLOG'] = str(log)          # stand-in helpers record their pids next to the script's records
+    for k_, v_ in scen.get('env', {}).items():
+        os.environ[k_] = str(v_)
     external = dict(scen.get('external', {}))
     for k, v in list(external.items()):
         if v and v.startswith('standin:'):
@@ -300,7 +303,7 @@ def main():
     invs = []
     pids = []
     for f in sorted(log.iterdir()):
-        if f.name.endswith('.tmp'):
+        if f.name.endswith('.tmp') or not f.name.startswith('inv.'):
             continue
         rec = {'files': {}, 'children': []}
         for line in f.read_text().split('\n'):
